@@ -79,6 +79,8 @@ def _param_src(p):
     elif p.get('ann'):
         s += f": {p['ann']!r}"
     d = p['d']
+    if p.get('dsrc'):              # a default that is a bool or an instance of an int/float subclass
+        return s + ' = ' + p['dsrc']
     if d[0] == 'none':
         return s
     if d[0] == 'None':
@@ -126,7 +128,12 @@ def run_one(case):
             return
         sd = main._current_synthdef
         snap.extend(u for u in sd._children if isinstance(u, iou.AbstractControl))
-    ns = {'SynthDef': sdf.SynthDef, 'REC': rec, 'SNAP': SNAP}
+    class MyInt(int):
+        pass
+
+    class MyFloat(float):
+        pass
+    ns = {'SynthDef': sdf.SynthDef, 'REC': rec, 'SNAP': SNAP, 'MyInt': MyInt, 'MyFloat': MyFloat}
     out = {}
     try:
         exec(make_source(case), ns)
@@ -160,6 +167,16 @@ def run_one(case):
         out['rebuild_same'] = bytes(sd2.as_bytes()) == bytes(sd.as_bytes())
     except Exception as e:  # noqa
         out['rebuild_same'] = 'EXC:' + type(e).__name__
+    # the decorator entry point builds the same definition: @synthdef / @synthdef(rates=…, prepend=…, …)
+    try:
+        fn = ns['fn0']
+        fn.__name__ = 'c04'
+        sd3 = sdf.synthdef(**kwargs)(fn) if kwargs else sdf.synthdef(fn)
+        out['decorator_same'] = bytes(sd3.as_bytes()) == bytes(sd.as_bytes())
+    except Exception as e:  # noqa
+        out['decorator_same'] = 'EXC:' + type(e).__name__
+    finally:
+        ns['fn0'].__name__ = 'fn0'
     rec.clear()
     rec.update(rec1)
     # ---- the definition bytes
